@@ -115,6 +115,25 @@ def opts_of(s):
     return o
 
 
+DERIVE_LISTS = {
+    "response_derives": [None, "Debug", "Clone, Debug ,PartialEq", "Serialize", "serde::Serialize", "Debug,Clone,Serialize,PartialEq"],
+    "variables_derives": [None, "Debug", "Deserialize", "Debug, Clone, Deserialize", "serde::Deserialize", "Default"],
+}
+
+
+def shape(items):
+    """Everything of the generated items except the derive lists (a derive list adds traits, nothing else)."""
+    out = []
+    for it in items:
+        it = dict(it)
+        if "attrs" in it:
+            it["attrs"] = [a for a in it["attrs"] if a.get("path") != "derive"]
+        if it.get("kind") == "mod":
+            it["items"] = shape(it["items"])
+        out.append(it)
+    return out
+
+
 def canon_out(text):
     val, conflicts = gql.loads_keep_duplicates(text)
     return json.dumps([val, [str(c) for c in conflicts]], sort_keys=True)
@@ -143,6 +162,34 @@ def run(tier):
             for s in (sets if oi < n_rich else narrow):
                 mods.append({"oi": oi, "desc": desc, "doc": doc, "set": s, "base": bi, "opts": dict(opts_of(s), **base)})
     resps = generate([gen_request(sdl, gql.render_doc(m["doc"]), m["opts"]) for m in mods])
+    # ---- token level: the two derive lists change nothing but `#[derive(..)]` - struct shapes (unit or braced), field
+    # types and serde attributes are the same under every list, also for lists the compiled part cannot use (without
+    # Serialize / Deserialize)
+    shape_ops = [(d, doc) for d, doc in ops[:n_rich]] + [("operation without variables", Doc([Op("query", "Op", [Field("version"), Field("count")])]))]
+    sreqs, smeta = [], []
+    for desc, doc in shape_ops:
+        for key, lists in DERIVE_LISTS.items():
+            for lst in lists:
+                o = {"mode": "cli"}
+                if lst is not None:
+                    o[key] = lst
+                sreqs.append(gen_request(sdl, gql.render_doc(doc), o, inspect=True))
+                smeta.append((desc, key, lst, doc))
+    sres = generate(sreqs)
+    ref_shape = {}
+    shape_cmp = 0
+    for (desc, key, lst, doc), r in zip(smeta, sres):
+        if r["status"] != "ok" or "items" not in r:
+            rep.violation("generation_failed", {"operation": desc, "options": {key: lst}, "query": gql.render_doc(doc)}, r.get("msg") or r.get("parse_error"))
+            continue
+        sh = json.dumps(shape(r["items"]), sort_keys=True)
+        if desc not in ref_shape:
+            ref_shape[desc] = sh
+            continue
+        shape_cmp += 1
+        if sh != ref_shape[desc]:
+            rep.violation("derive_list_changes_more_than_the_derives", {"operation": desc, "options": {key: lst}, "query": gql.render_doc(doc)},
+                          "items differ beyond #[derive(..)] from the ones generated without extra derives")
     farm = Farm("c09")
     for m, r in zip(mods, resps):
         m["label"] = {"operation": m["desc"], "options": {k: v for k, v in m["opts"].items() if k != "mode"}, "query": gql.render_doc(m["doc"])}
@@ -254,7 +301,7 @@ def run(tier):
                 "at 1500); each observation is compared with the same vector under the default option set; the whole comparison is "
                 "repeated under each fixed setting of the non-neutral options (default; skip-none + other-variant + deprecated=allow; "
                 "thorough also each alone). distinct = (operation, non-default option set, base setting)" % (len(ops), "the full product" if tier == "thorough" else "default + all single and pairwise deviations"),
-        "operations": len(ops), "option_sets": len(sets), "modules": len(mods), "distinct_outcomes": outcomes,
+        "operations": len(ops), "option_sets": len(sets), "modules": len(mods), "shape_comparisons": shape_cmp, "distinct_outcomes": outcomes,
         "vectors_per_operation": {ops[oi][0]: {"response_vectors": len(v[0]), "assignments": len(v[1])} for oi, v in vectors.items()},
         "exhaustive": tier == "thorough",
         "samples": pick_samples([m["label"]["options"] for m in mods], 6),
